@@ -648,6 +648,15 @@ theorem tree_based_selection (c : Cli) (R : List SuiteRes) (S kept : List Suite)
       have hk := loadSuites_true_ok h
       rw [hk, selected_iff]
 
+/-- Non-vacuity of `tree_based_selection`: `lcc run --tag y` on a two-level project succeeds. -/
+example :
+    let t (n : Nat) (tags : List Str) : Node := { name := [n], desc := [n], tags := tags, props := [], links := [], disabled := false }
+    let S : List Suite := [.mk (t 115 []) [t 97 [], t 98 [[121]]] [.mk (t 117 [[121]]) [t 99 []] []]]
+    let c : Cli := { base := { tags := [[[121]]] } }
+    c.reportBased = false ∧
+    (selectCli c [] S).toOption.map (fun k => (flattenSuites [] k).map (fun x => pathOf (testHier x)))
+      = some [[115, 46, 98], [115, 46, 117, 46, 99]] := by decide
+
 /-- `lcc run --failed` re-runs exactly the failed tests: with only `--failed` on the command line the
     selected project tests are those whose path has a result with status `failed` in the report. -/
 theorem rerun_failed (R : List SuiteRes) (S : List Suite) (kept : List Suite)
